@@ -4,6 +4,7 @@ var RecordMixin *Mixin // ::Std::Record
 
 func initRecord() {
 	RecordMixin = NewMixin()
+	RecordMixin.IncludeMixin(IterableBaseMixin)
 	StdModule.AddConstantString("Record", Ref(RecordMixin))
 	RegisterNativeMixin("Std::Record", "value.RecordMixin")
 }
